@@ -61,3 +61,27 @@ Theorem C13_rs_length :
   forall (FO : FieldOps) omega m msg, length (rs_encode omega m msg) = m.
 Proof. exact @rs_length. Qed.
 Print Assumptions C13_rs_length.
+
+(* linear codes at the trait level: an honest opening authenticates exactly t columns (t = the result of calculate_t for the
+   codeword length), every path intact and at a position inside the codeword; the verifier gives a verdict only on a proof that
+   carries at least t columns and t paths; the derived positions are the squeezed byte strings reduced modulo the codeword length *)
+From PC Require Import Base.Field Base.Result Schemes.CalcT Schemes.Ligero Schemes.LinCodeList Proofs.LinCodeListFacts.
+Theorem C13_honest_opening_has_t_columns_inside_the_codeword :
+  forall (FO : FieldOps) tensor wf cm rows pt tape pf rest t,
+    cm_t cm = Ok t -> lc_open_one tensor wf cm rows pt tape = Ok (pf, rest) ->
+    length (lf_paths pf) = t /\ length (lf_cols pf) = t /\
+    Forall (fun p => (lpt_index p < cm_n_ext cm)%nat /\ lpt_intact p = true) (lf_paths pf).
+Proof. exact @lc_open_one_columns. Qed.
+Print Assumptions C13_honest_opening_has_t_columns_inside_the_codeword.
+
+Theorem C13_verdict_needs_t_columns :
+  forall (FO : FieldOps) tensor wf cm pt value pf tape res rest t,
+    cm_t cm = Ok t -> lc_check_one tensor wf cm pt value pf tape = Ok (res, rest) ->
+    (t <= length (lf_cols pf))%nat /\ (t <= length (lf_paths pf))%nat.
+Proof. exact @lc_check_one_shape. Qed.
+Print Assumptions C13_verdict_needs_t_columns.
+
+Theorem C13_indices_inside_codeword :
+  forall n sq idx, indices_of n sq = Ok idx -> length idx = length sq /\ Forall (fun i => (i < n)%N) idx.
+Proof. exact @indices_of_spec. Qed.
+Print Assumptions C13_indices_inside_codeword.
